@@ -20,6 +20,7 @@ import (
 	"regexp"
 	"strconv"
 	"strings"
+	"sync"
 	"time"
 	"unicode"
 	"unicode/utf8"
@@ -619,10 +620,16 @@ func NumberFormat(fn parser.Function, args []value.Primary, _ *option.Flags) (va
 	return value.NewString(s), nil
 }
 
+var randMutex sync.Mutex
+
 func Rand(fn parser.Function, args []value.Primary, _ *option.Flags) (value.Primary, error) {
 	if 0 < len(args) && len(args) != 2 {
 		return nil, NewFunctionArgumentLengthError(fn, fn.Name, []int{0, 2})
 	}
+
+	// The generator is shared by all goroutines that evaluate the records of a query.
+	randMutex.Lock()
+	defer randMutex.Unlock()
 
 	r := option.GetRand()
 
